@@ -618,6 +618,10 @@ def _carry_cells(L, R, nm):
         for si, s in enumerate(blk["stmts"]):
             if s["k"] == "assign" and "deref" in s["p"]["proj"]:
                 dst = org.of_place({"l": s["p"]["l"], "proj": []}, bi, si)
+                pr = s["p"]["proj"]
+                if len(pr) == 2 and pr[0] == "deref" and isinstance(pr[1], dict) and "i" in pr[1]:
+                    # `v[i + 1] = 1` on a `&mut [u32]` view of the result vector (a helper handed `&mut v`)
+                    dst = ("call", "core::ops::index::IndexMut::index_mut", (dst, org.of_place({"l": pr[1]["i"], "proj": []}, bi, si)))
                 if dst[0] == "call" and dst[1] == "core::ops::index::IndexMut::index_mut" and L.array_key(dst[2][0]) == "V":
                     idx = dst[2][1]
                     if idx[0] == "bin" and idx[1] == "Add" and idx[3] == ("const", "usize", 1):
